@@ -122,6 +122,41 @@ impl<'a> Iterator for DeepIter<'a> {
     }
 }
 
+/// A non-fused iterator: the digits, `None` exactly once, then a short tail of further bytes. The Iterator
+/// contract allows this (`scan`, `map_while` and hand-written cursors behave so); a caller that polls again
+/// after `None` sees the tail.
+#[derive(Clone, Debug)]
+struct NonFused<'a> {
+    src: &'a [u8],
+    tail: &'a [u8],
+    pos: usize,
+    ended: bool,
+}
+impl<'a> Iterator for NonFused<'a> {
+    type Item = &'a u8;
+    fn next(&mut self) -> Option<&'a u8> {
+        if !self.ended {
+            match self.src.get(self.pos) {
+                Some(b) => {
+                    self.pos += 1;
+                    Some(b)
+                },
+                None => {
+                    self.ended = true;
+                    self.pos = 0;
+                    None
+                },
+            }
+        } else {
+            let r = self.tail.get(self.pos);
+            if r.is_some() {
+                self.pos += 1;
+            }
+            r
+        }
+    }
+}
+
 fn run_iter<'a, F: RF, I1, I2>(i: I1, f: I2, exp: i32) -> u64
 where
     I1: Iterator<Item = &'a u8> + Clone,
@@ -226,6 +261,12 @@ fn shapes<F: RF>(inp: &Inp, want: u64, count: &mut u64) -> Vec<(String, u64)> {
     chk(
         "DeepIter(size_hint=(0,None))".into(),
         run_iter::<F, _, _>(DeepIter { src: i, pos: 0, scratch: vec![] }, DeepIter { src: f, pos: 0, scratch: vec![] }, e),
+        count,
+    );
+    // non-fused iterators (digits, None once, then five more bytes): polling after None must not happen
+    chk(
+        "NonFused(tail after None)".into(),
+        run_iter::<F, _, _>(NonFused { src: i, tail: b"77777", pos: 0, ended: false }, NonFused { src: f, tail: b"33333", pos: 0, ended: false }, e),
         count,
     );
     // flat_map / map shapes
